@@ -206,6 +206,28 @@ theorem c10_palindromic_splitting_reverse {S C : Type} (A B : C → S → S) (ng
   have := splitRun_inv_reverse A B ng hA hB l s
   rwa [← List.map_reverse, hpal] at this
 
+/-- the WHFast-shaped step `kepler(τ/2) ; interaction(τ) ; kepler(τ/2)`: IF the Kepler primitive is
+    undone by the negated step, `kepler(−τ) ∘ kepler(τ) = id`, and so is the interaction, then n steps
+    with τ followed by n steps with −τ are the identity.  (The hypothesis on `kepler` is validated on the
+    real `reb_whfast_kepler_solver` by the check: elliptic/hyperbolic × sign × step size × solver branch.) -/
+theorem c10_kepler_interaction_steps_reverse {S C : Type} (kepler inter : C → S → S) (ng half : C → C)
+    (hhalf : ∀ c, half (ng c) = ng (half c))
+    (hK : ∀ c s, kepler (ng c) (kepler c s) = s) (hI : ∀ c s, inter (ng c) (inter c s) = s)
+    (τ : C) (n : Nat) (s : S) :
+    iter (whStep kepler inter half (ng τ)) n (iter (whStep kepler inter half τ) n s) = s := by
+  apply iter_inverse
+  intro s
+  simp only [whStep, hhalf, hK, hI]
+
+/-- that hypothesis is necessary: if every palindromic splitting is reversed by negating its
+    coefficients, then in particular `A(−c) ∘ A(c) = id` for the first flow (the Kepler drift) -/
+theorem c10_flow_inverse_necessary {S C : Type} (A B : C → S → S) (ng : C → C)
+    (h : ∀ l : List (Bool × C), l.reverse = l → ∀ s,
+      splitRun A B (l.map (fun p => (p.1, ng p.2))) (splitRun A B l s) = s) :
+    ∀ c s, A (ng c) (A c s) = s := by
+  intro c s
+  exact h [(false, c)] rfl s
+
 /-- the hypotheses are satisfiable: translations of a field are flows undone by the negated
     coefficient (leapfrog's drift and kick are of this kind) -/
 example (c s : K) : (fun (a : K) (x : K) => x + a) (-c) ((fun (a : K) (x : K) => x + a) c s) = s := by
